@@ -357,7 +357,9 @@ inline void m16(const Edge& e, const Parsed&) {
 		if (!on) { if (isLog) flag(C16, "record-without-logger", e, "ev %d", i); continue; }
 		if (v.kind == EV_LOG_METHOD) {
 			// must be immediately followed by that very delivery (first member of the group), unless the state defines no callbacks (verbose only)
-			if (v.sid == bare) { if (VX_LOG != 2) flag(C16, "record-for-undefined-callback", e, "ev %d: method record for a state that defines no callback", i); continue; }
+			// a state that defines no callback: no delivery is observable. Verbose logging must record these deliveries (checked below);
+			// plain logging happens to record the event-templated ones as well, which is truthful (DESIGN.md O5)
+			if (v.sid == bare) continue;
 			const Ev* nx = i + 1 < e.nev ? &e.tr[i + 1] : nullptr;
 			if (!nx || nx->kind != EV_CB || nx->sid != v.sid || nx->meth != v.meth) flag(C16, "method-record-without-delivery", e, "ev %d: record (%d,%s) is not followed by that delivery", i, v.sid, v.meth < 15 ? METH_NAME[v.meth] : "?");
 			continue;
@@ -393,6 +395,35 @@ inline void m16(const Edge& e, const Parsed&) {
 			continue;
 		}
 	}
+#if VX_LOG == 2
+	if (on && !e.overflow) {
+		// verbose: the method records alone must show every delivery, also those to the state without callbacks
+		const uint8_t A = e.initial ? NONE8 : e.pre.active;
+		uint8_t ps[12], pm[12]; int np = 0; uint8_t ls[8], lm[8]; int nl = 0;
+		for (int i = 0; i < e.nev; ++i) { const Ev& v = e.tr[i]; if (v.kind == EV_MARK) break; if (v.kind != EV_LOG_METHOD) continue;
+			if (is_phase(v.meth) && np < 12) { ps[np] = v.sid; pm[np++] = v.meth; }
+			if (is_life(v.meth) && v.sid != ROOT && nl < 8) { ls[nl] = v.sid; lm[nl++] = v.meth; } }
+		if (e.op.k == OP_UPDATE || e.op.k == OP_REACT) {
+			const bool up = e.op.k == OP_UPDATE; const uint8_t pre = up ? M_PRE_UPDATE : M_PRE_REACT, mid = up ? M_UPDATE : M_REACT, post = up ? M_POST_UPDATE : M_POST_REACT;
+			uint8_t ws[6], wm[6]; int n = 0;
+			if (VX_HEAD) { ws[n] = ROOT; wm[n++] = pre; }
+			ws[n] = A; wm[n++] = pre;
+			if (VX_HEAD) { ws[n] = ROOT; wm[n++] = mid; }
+			ws[n] = A; wm[n++] = mid; ws[n] = A; wm[n++] = post;
+			if (VX_HEAD) { ws[n] = ROOT; wm[n++] = post; }
+			bool ok = np == n; for (int i = 0; ok && i < n; ++i) ok = ps[i] == ws[i] && pm[i] == wm[i];
+			if (!ok) flag(C16, "verbose-phase-records", e, "verbose logging recorded %d phase deliveries, the cycle has %d (active state %d)", np, n, A);
+		} else if (np) flag(C16, "verbose-phase-records", e, "phase records outside update()/react()");
+		if (!e.terminal) {
+			bool ok;
+			if (A == e.post.active) ok = nl == 0 || (nl == 1 && lm[0] == M_REENTER && ls[0] == A);
+			else if (A == NONE8) ok = nl == 1 && lm[0] == M_ENTER && ls[0] == e.post.active;
+			else if (e.post.active == NONE8) ok = nl == 1 && lm[0] == M_EXIT && ls[0] == A;
+			else ok = nl == 2 && lm[0] == M_EXIT && ls[0] == A && lm[1] == M_ENTER && ls[1] == e.post.active;
+			if (!ok) flag(C16, "verbose-lifecycle-records", e, "verbose logging recorded %d lifecycle deliveries for the change of activity %d -> %d", nl, A, e.post.active);
+		}
+	}
+#endif
 	if (on) {
 		if ((e.op.k == OP_CHANGE || e.op.k == OP_IMM || e.op.k == OP_CHANGEW || e.op.k == OP_IMMW) && !(e.nev && e.tr[0].kind == EV_LOG_TRANS && e.tr[0].sid == ROOT && e.tr[0].a == e.op.a)) flag(C16, "external-request-without-record", e, "no transition record for the external request");
 		if ((e.op.k == OP_SUCCEED || e.op.k == OP_FAIL) && !(e.nev && e.tr[0].kind == EV_LOG_TASK && e.tr[0].sid == e.op.a)) flag(C16, "external-report-without-record", e, "no task-status record");
